@@ -5,136 +5,56 @@ From Coq Require Import List Ascii Bool Arith Lia Permutation.
 From Grog Require Import Str Label HashKey HashKey_proofs Build Build_proofs.
 Import ListNotations.
 
-(* ================================================================== workspace: wrong-kind order *)
-Definition wk_le (ws2 ws1 : list (str * pstate)) : Prop :=
-  forall p, ws_get p ws2 = PWrongKind -> ws_get p ws1 = PWrongKind.
-
-Lemma wk_le_refl ws : wk_le ws ws.
-Proof. intros p Hp; exact Hp. Qed.
-
-Lemma wk_le_trans a b c : wk_le a b -> wk_le b c -> wk_le a c.
-Proof. intros Hab Hbc p Hp. apply Hbc, Hab, Hp. Qed.
-
-Lemma wk_le_set p st ws : st <> PWrongKind -> wk_le (ws_set p st ws) ws.
-Proof.
-  intros Hst q Hq. rewrite ws_get_set in Hq. destruct (str_eqb p q); [congruence | exact Hq].
-Qed.
-
 Section C02.
 Variable H : str -> str.
 
 (* ================================================================== restoring outputs *)
-Lemma load_one_wk c t o dg ws ws' : load_one H c t o dg ws = Some ws' -> wk_le ws' ws.
-Proof.
-  unfold load_one. intro E.
-  destruct (match ws_get (out_path t o) ws with PFile x => str_eqb (out_digest H o x) dg | _ => false end).
-  - inversion E; subst. apply wk_le_refl.
-  - destruct (alookup dg (c_cas c)) as [content|]; [|discriminate].
-    destruct (o_kind o); destruct (ws_get (out_path t o) ws); try discriminate;
-      inversion E; subst; apply wk_le_set; discriminate.
-Qed.
-
-Lemma load_one_nwk c t o dg ws ws' :
-  load_one H c t o dg ws = Some ws' -> ws_get (out_path t o) ws' <> PWrongKind.
-Proof.
-  unfold load_one. intro E.
-  destruct (ws_get (out_path t o) ws) eqn:Ecur.
-  1,2,4: destruct (alookup dg (c_cas c)) as [content|]; [|discriminate];
-    destruct (o_kind o); try discriminate; inversion E; subst;
-    rewrite ws_get_set_same; discriminate.
-  destruct (str_eqb (out_digest H o content) dg).
-  - inversion E; subst. rewrite Ecur. discriminate.
-  - destruct (alookup dg (c_cas c)) as [content'|]; [|discriminate].
-    destruct (o_kind o); inversion E; subst; rewrite ws_get_set_same; discriminate.
-Qed.
-
+(* since the repair of C06-F3 a restore is blocked by nothing that sits at the output path (absent, parent
+   missing, any file, a directory at a file's path): it succeeds iff the blob is in the CAS or the path
+   already holds the recorded content *)
 Lemma load_one_ok c t o dg ws :
   alookup dg (c_cas c) <> None ->
-  (o_kind o = OFile -> ws_get (out_path t o) ws <> PWrongKind) ->
   exists ws', load_one H c t o dg ws = Some ws'.
 Proof.
-  intros Hcas Hwk. unfold load_one.
+  intros Hcas. unfold load_one.
   destruct (match ws_get (out_path t o) ws with PFile x => str_eqb (out_digest H o x) dg | _ => false end);
     [eauto|].
-  destruct (alookup dg (c_cas c)) as [content|]; [|congruence].
-  destruct (o_kind o); [|eauto].
-  destruct (ws_get (out_path t o) ws); eauto. exfalso. apply Hwk; reflexivity.
+  destruct (alookup dg (c_cas c)) as [content|]; [eauto | congruence].
 Qed.
 
 Lemma load_one_fail c t o dg ws :
-  load_one H c t o dg ws = None ->
-  alookup dg (c_cas c) = None \/ (o_kind o = OFile /\ ws_get (out_path t o) ws = PWrongKind).
+  load_one H c t o dg ws = None -> alookup dg (c_cas c) = None.
 Proof.
   unfold load_one. intro E.
   destruct (match ws_get (out_path t o) ws with PFile x => str_eqb (out_digest H o x) dg | _ => false end);
     [discriminate|].
-  destruct (alookup dg (c_cas c)) as [content|]; [|left; reflexivity].
-  destruct (o_kind o); [|discriminate].
-  destruct (ws_get (out_path t o) ws); try discriminate. right; split; reflexivity.
+  destruct (alookup dg (c_cas c)) as [content|]; [discriminate | reflexivity].
 Qed.
 
-Lemma load_all_wk c t rs : forall ws, wk_le (snd (load_all H c t rs ws)) ws.
-Proof.
-  induction rs as [|[def dg] rs IH]; intro ws; cbn [load_all]; [apply wk_le_refl|].
-  destruct (find_out (td_outs t) def) as [o|].
-  - destruct (load_one H c t o dg ws) as [ws1|] eqn:E1.
-    + eapply wk_le_trans; [apply IH | eapply load_one_wk; exact E1].
-    + specialize (IH ws). destruct (load_all H c t rs ws) as [ok ws']. exact IH.
-  - specialize (IH ws). destruct (load_all H c t rs ws) as [ok ws']. exact IH.
-Qed.
-
-Definition restorable (c : cache) (t : tdef) (ws : list (str * pstate)) (rs : list (str * str)) : Prop :=
+Definition restorable (c : cache) (t : tdef) (rs : list (str * str)) : Prop :=
   forall def dg, In (def, dg) rs ->
-    exists o, find_out (td_outs t) def = Some o /\ alookup dg (c_cas c) <> None /\
-              (o_kind o = OFile -> ws_get (out_path t o) ws <> PWrongKind).
+    exists o, find_out (td_outs t) def = Some o /\ alookup dg (c_cas c) <> None.
 
-Lemma restorable_wk c t ws ws' rs : wk_le ws' ws -> restorable c t ws rs -> restorable c t ws' rs.
-Proof.
-  intros Hle Hr def dg Hin. destruct (Hr def dg Hin) as (o & Hf & Hc & Hw).
-  exists o; repeat split; auto. intros Hk Hp. apply (Hw Hk). apply Hle, Hp.
-Qed.
-
-Lemma load_all_ok c t rs : forall ws, restorable c t ws rs -> fst (load_all H c t rs ws) = true.
+Lemma load_all_ok c t rs : forall ws, restorable c t rs -> fst (load_all H c t rs ws) = true.
 Proof.
   induction rs as [|[def dg] rs IH]; intros ws Hr; cbn [load_all]; [reflexivity|].
-  destruct (Hr def dg (or_introl eq_refl)) as (o & Hf & Hc & Hw). rewrite Hf.
-  destruct (load_one_ok c t o dg ws Hc Hw) as [ws1 E1]. rewrite E1.
-  apply IH. apply restorable_wk with ws; [eapply load_one_wk; exact E1|].
-  intros d g Hin. apply Hr. right; exact Hin.
+  destruct (Hr def dg (or_introl eq_refl)) as (o & Hf & Hc). rewrite Hf.
+  destruct (load_one_ok c t o dg ws Hc) as [ws1 E1]. rewrite E1.
+  apply IH. intros d g Hin. apply Hr. right; exact Hin.
 Qed.
 
 Lemma load_all_fail c t rs : forall ws, fst (load_all H c t rs ws) = false ->
   exists def dg, In (def, dg) rs /\
     (find_out (td_outs t) def = None \/
-     exists o, find_out (td_outs t) def = Some o /\
-       (alookup dg (c_cas c) = None \/ (o_kind o = OFile /\ ws_get (out_path t o) ws = PWrongKind))).
+     exists o, find_out (td_outs t) def = Some o /\ alookup dg (c_cas c) = None).
 Proof.
   induction rs as [|[def dg] rs IH]; intros ws Hf; cbn [load_all] in Hf; [discriminate|].
   destruct (find_out (td_outs t) def) as [o|] eqn:Ef.
   - destruct (load_one H c t o dg ws) as [ws1|] eqn:E1.
-    + destruct (IH ws1 Hf) as (d & g & Hin & Hc). exists d, g. split; [right; exact Hin|].
-      destruct Hc as [Hn|(o' & Ho' & [Hb|[Hk Hp]])]; [left; exact Hn | right; exists o'; auto |].
-      right. exists o'. split; [exact Ho'|]. right. split; [exact Hk|].
-      eapply load_one_wk; [exact E1 | exact Hp].
+    + destruct (IH ws1 Hf) as (d & g & Hin & Hc). exists d, g. split; [right; exact Hin | exact Hc].
     + exists def, dg. split; [left; reflexivity|]. right. exists o. split; [exact Ef|].
       apply load_one_fail with (1 := E1).
   - exists def, dg. split; [left; reflexivity | left; exact Ef].
-Qed.
-
-Lemma load_all_true_nwk c t rs : forall ws ws', load_all H c t rs ws = (true, ws') ->
-  forall def dg o, In (def, dg) rs -> find_out (td_outs t) def = Some o ->
-    ws_get (out_path t o) ws' <> PWrongKind.
-Proof.
-  induction rs as [|[def dg] rs IH]; intros ws ws' E d g o Hin Hf; [destruct Hin|].
-  cbn [load_all] in E.
-  destruct (find_out (td_outs t) def) as [o1|] eqn:Ef1.
-  - destruct (load_one H c t o1 dg ws) as [ws1|] eqn:E1.
-    + destruct Hin as [Heq|Hin]; [|eapply IH; eauto].
-      inversion Heq; subst d g. rewrite Ef1 in Hf; inversion Hf; subst o1.
-      intro Hp. apply (load_one_nwk _ _ _ _ _ _ E1).
-      pose proof (load_all_wk c t rs ws1) as Hle. rewrite E in Hle. apply Hle, Hp.
-    + destruct (load_all H c t rs ws) as [ok w2]; discriminate.
-  - destruct (load_all H c t rs ws) as [ok w2]; discriminate.
 Qed.
 
 (* ================================================================== labels *)
@@ -169,21 +89,6 @@ Lemma label_in_cons l x ls : label_in l (x :: ls) = label_eqb l x || label_in l 
 Proof. reflexivity. Qed.
 
 (* ================================================================== the command *)
-Lemma write_outs_wk s t reads skip : forall outs k ws, wk_le (write_outs s t k outs reads skip ws) ws.
-Proof.
-  induction outs as [|o outs IH]; intros k ws; cbn [write_outs]; [apply wk_le_refl|].
-  eapply wk_le_trans; [apply IH|].
-  destruct skip as [j|]; [destruct (Nat.eqb j k)|]; apply wk_le_set; discriminate.
-Qed.
-
-Lemma run_command_wk s t w w' : run_command s t w = Some w' -> wk_le (w_ws w') (w_ws w).
-Proof.
-  unfold run_command. intro E.
-  destruct (td_beh t); try discriminate;
-    destruct (dep_parts s (w_ws w) (td_deps t)); try discriminate;
-    inversion E; subst; cbn [w_ws]; apply write_outs_wk.
-Qed.
-
 Lemma run_command_ext_other s t w w' l :
   run_command s t w = Some w' -> l <> td_label t -> label_in l (w_ext w') = label_in l (w_ext w).
 Proof.
@@ -210,13 +115,6 @@ Proof.
       try (rewrite Hl; auto).
   - rewrite (run_command_ext_other s t w w' l E); [exact Hl|].
     intro; subst. rewrite label_eqb_refl in El. discriminate.
-Qed.
-
-Lemma run_command_failed_world_wk s t w : wk_le (w_ws (run_command_failed_world s t w)) (w_ws w).
-Proof.
-  unfold run_command_failed_world.
-  destruct (td_beh t); try apply wk_le_refl.
-  destruct (dep_parts s (w_ws w) (td_deps t)); [cbn [w_ws]; apply write_outs_wk | apply wk_le_refl].
 Qed.
 
 Lemma run_command_failed_world_ext s t w : w_ext (run_command_failed_world s t w) = w_ext w.
@@ -358,19 +256,17 @@ Proof. unfold find_out. intro E. apply find_some in E. tauto. Qed.
 Definition frame (i : nat) (b b' : bstate) : Prop :=
   rt_len b' = rt_len b /\
   (forall j, j <> i -> get_rt b' j = get_rt b j) /\
-  wk_le (w_ws (b_world b')) (w_ws (b_world b)) /\
   (forall l, label_in l (c_taint (b_cache b')) = true -> label_in l (c_taint (b_cache b)) = true) /\
   (forall d x, alookup d (c_cas (b_cache b)) = Some x -> alookup d (c_cas (b_cache b')) = Some x).
 
 Lemma frame_refl i b : frame i b b.
-Proof. repeat split; auto. apply wk_le_refl. Qed.
+Proof. repeat split; auto. Qed.
 
 Lemma frame_trans i a b c : frame i a b -> frame i b c -> frame i a c.
 Proof.
-  intros (L1 & R1 & W1 & T1 & C1) (L2 & R2 & W2 & T2 & C2). repeat split.
+  intros (L1 & R1 & T1 & C1) (L2 & R2 & T2 & C2). repeat split.
   - congruence.
   - intros j Hj. rewrite R2, R1; auto.
-  - eapply wk_le_trans; eauto.
   - auto.
   - auto.
 Qed.
@@ -380,17 +276,16 @@ Proof.
   repeat split; auto.
   - apply rt_len_set_rt.
   - intros j Hj. apply get_rt_set_rt_other. auto.
-  - apply wk_le_refl.
 Qed.
 
 Lemma frame_mark i b st : frame i b (mark b i st).
 Proof. unfold mark. apply frame_set_rt. Qed.
 
 Lemma frame_add_exec i b l : frame i b (add_exec b l).
-Proof. repeat split; auto. apply wk_le_refl. Qed.
+Proof. repeat split; auto. Qed.
 
-Lemma frame_set_world i b w : wk_le (w_ws w) (w_ws (b_world b)) -> frame i b (set_world b w).
-Proof. intro Hw. repeat split; auto. Qed.
+Lemma frame_set_world i b w : frame i b (set_world b w).
+Proof. repeat split; auto. Qed.
 
 Definition exec_b0 (t : tdef) (b : bstate) : bstate :=
   if null (td_cmd t) then b else add_exec b (td_label t).
@@ -418,7 +313,7 @@ Definition untaint (tainted : bool) (t : tdef) (b2 : bstate) : bstate :=
 Lemma frame_untaint i tainted t b : frame i b (untaint tainted t b).
 Proof.
   unfold untaint. destruct tainted; [|apply frame_refl].
-  repeat split; auto; [apply wk_le_refl|].
+  repeat split; auto.
   cbn. intros l Hl. eapply label_in_remove_sub; exact Hl.
 Qed.
 
@@ -429,7 +324,6 @@ Proof.
   intros ->. unfold oc_state. repeat split.
   - rewrite rt_len_set_rt. reflexivity.
   - intros j Hj. rewrite get_rt_set_rt_other; auto.
-  - apply wk_le_refl.
   - cbn. auto.
   - cbn. intros d x Hx. apply oc_pair_cas_mono, Hx.
 Qed.
@@ -438,10 +332,8 @@ Qed.
 Lemma execute_cases cfg s i t key tainted b ok b' :
   execute H cfg s i t key tainted b = (ok, b') ->
   (ok = false /\ exists w', b' = set_world (exec_b0 t b) w' /\
-      wk_le (w_ws w') (w_ws (b_world b)) /\
       (forall l, l <> td_label t -> label_in l (w_ext w') = label_in l (w_ext (b_world b)))) \/
   (ok = true /\ exists w' ds,
-      wk_le (w_ws w') (w_ws (b_world b)) /\
       (forall l, label_in l (w_ext (b_world b)) = true -> label_in l (w_ext w') = true) /\
       check_ok w' t = true /\
       present_digests H t (td_outs t) (w_ws w') = Some ds /\
@@ -453,11 +345,7 @@ Proof.
   intro E.
   destruct (if null (td_cmd t) then Some (b_world (exec_b0 t b))
             else run_command s t (b_world (exec_b0 t b))) as [w'|] eqn:Eran.
-  - assert (Hwk : wk_le (w_ws w') (w_ws (b_world b))).
-    { destruct (null (td_cmd t)).
-      - inversion Eran; subst. rewrite exec_b0_world. apply wk_le_refl.
-      - rewrite exec_b0_world in Eran. eapply run_command_wk; exact Eran. }
-    assert (Hoth : forall l, l <> td_label t -> label_in l (w_ext w') = label_in l (w_ext (b_world b))).
+  - assert (Hoth : forall l, l <> td_label t -> label_in l (w_ext w') = label_in l (w_ext (b_world b))).
     { intros l Hl. destruct (null (td_cmd t)).
       - inversion Eran; subst. rewrite exec_b0_world. reflexivity.
       - rewrite exec_b0_world in Eran. eapply run_command_ext_other; eauto. }
@@ -476,17 +364,16 @@ Proof.
   - left. inversion E; subst. split; [reflexivity|].
     exists (run_command_failed_world s t (b_world (exec_b0 t b))). rewrite exec_b0_world.
     repeat split.
-    + apply run_command_failed_world_wk.
-    + intros l _. rewrite run_command_failed_world_ext. reflexivity.
+    intros l _. rewrite run_command_failed_world_ext. reflexivity.
 Qed.
 
 Lemma execute_frame cfg s i t key tainted b ok b' :
   execute H cfg s i t key tainted b = (ok, b') -> frame i b b'.
 Proof.
-  intro E. apply execute_cases in E as [(_ & w' & -> & Hwk & _)|(_ & w' & ds & Hwk & _ & _ & _ & ->)].
-  - eapply frame_trans; [apply frame_exec_b0|]. apply frame_set_world. rewrite exec_b0_world. exact Hwk.
+  intro E. apply execute_cases in E as [(_ & w' & -> & _)|(_ & w' & ds & _ & _ & _ & ->)].
+  - eapply frame_trans; [apply frame_exec_b0|]. apply frame_set_world.
   - eapply frame_trans; [apply frame_exec_b0|].
-    eapply frame_trans; [apply frame_set_world; rewrite exec_b0_world; exact Hwk|].
+    eapply frame_trans; [apply frame_set_world|].
     eapply frame_trans; [|apply frame_untaint].
     apply frame_oc_state. rewrite b_cache_set_world, exec_b0_cache. reflexivity.
 Qed.
@@ -526,7 +413,7 @@ Proof. intro Hi. unfold oc_state. rewrite get_rt_set_rt_same; [reflexivity | exa
 Lemma execute_stop cfg s i t key tainted b ok b' :
   execute H cfg s i t key tainted b = (ok, b') -> b_stop b' = b_stop b.
 Proof.
-  intro E. apply execute_cases in E as [(_ & w' & -> & _)|(_ & w' & ds & _ & _ & _ & _ & ->)].
+  intro E. apply execute_cases in E as [(_ & w' & -> & _)|(_ & w' & ds & _ & _ & _ & ->)].
   - rewrite b_stop_set_world. apply exec_b0_stop.
   - rewrite untaint_stop, oc_state_stop, b_stop_set_world. apply exec_b0_stop.
 Qed.
@@ -534,7 +421,7 @@ Qed.
 Lemma execute_exec cfg s i t key tainted b ok b' :
   execute H cfg s i t key tainted b = (ok, b') -> b_exec b' = b_exec (exec_b0 t b).
 Proof.
-  intro E. apply execute_cases in E as [(_ & w' & -> & _)|(_ & w' & ds & _ & _ & _ & _ & ->)].
+  intro E. apply execute_cases in E as [(_ & w' & -> & _)|(_ & w' & ds & _ & _ & _ & ->)].
   - reflexivity.
   - rewrite untaint_exec, oc_state_exec. reflexivity.
 Qed.
@@ -543,7 +430,7 @@ Lemma execute_results_other cfg s i t key tainted b ok b' k :
   execute H cfg s i t key tainted b = (ok, b') -> key <> k ->
   rlookup k (c_results (b_cache b')) = rlookup k (c_results (b_cache b)).
 Proof.
-  intros E Hk. apply execute_cases in E as [(_ & w' & -> & _)|(_ & w' & ds & _ & _ & _ & _ & ->)].
+  intros E Hk. apply execute_cases in E as [(_ & w' & -> & _)|(_ & w' & ds & _ & _ & _ & ->)].
   - rewrite b_cache_set_world, exec_b0_cache. reflexivity.
   - rewrite untaint_results, oc_state_results, b_cache_set_world, exec_b0_cache.
     apply rlookup_set_other. exact Hk.
@@ -560,7 +447,7 @@ Lemma execute_rt_i cfg s i t key tainted b ok b' :
   execute H cfg s i t key tainted b = (ok, b') ->
   rt_key (get_rt b' i) = rt_key (get_rt b i) /\ rt_status (get_rt b' i) = rt_status (get_rt b i).
 Proof.
-  intro E. apply execute_cases in E as [(_ & w' & -> & _)|(_ & w' & ds & _ & _ & _ & _ & ->)].
+  intro E. apply execute_cases in E as [(_ & w' & -> & _)|(_ & w' & ds & _ & _ & _ & ->)].
   - rewrite get_rt_set_world, exec_b0_get_rt. auto.
   - rewrite untaint_get_rt. unfold oc_state. split.
     + rewrite (get_rt_set_rt_field rt_key); [|reflexivity].
@@ -577,7 +464,7 @@ Lemma execute_ext cfg s i t key tainted b ok b' l :
   label_in l (w_ext (b_world b')) = true \/ (ok = false /\ l = td_label t).
 Proof.
   intros E Hl.
-  apply execute_cases in E as [(-> & w' & -> & _ & Ho)|(_ & w' & ds & _ & Hm & _ & _ & ->)].
+  apply execute_cases in E as [(-> & w' & -> & Ho)|(_ & w' & ds & Hm & _ & _ & ->)].
   - rewrite b_world_set_world. destruct (label_eqb l (td_label t)) eqn:El.
     + right. apply label_eqb_eq in El. auto.
     + left. rewrite Ho; [exact Hl|]. intro; subst. rewrite label_eqb_refl in El. discriminate.
@@ -591,15 +478,12 @@ Lemma check_ok_ext w t : check_ok w t = check_ext (w_ext w) t.
 Proof. reflexivity. Qed.
 
 (* everything the next build needs in order to serve t from the cache under [key] *)
-Definition hit_ready (c : cache) (ext : list label) (ws : list (str * pstate))
-           (t : tdef) (key oh : str) : Prop :=
+Definition hit_ready (c : cache) (ext : list label) (t : tdef) (key oh : str) : Prop :=
   exists r, rlookup key (c_results c) = Some r /\ r_outhash r = oh /\ outputs_match t r = true /\
-    label_in (td_label t) (c_taint c) = false /\ check_ext ext t = true /\
-    (forall def dg o, In (def, dg) (r_outs r) -> find_out (td_outs t) def = Some o ->
-                      ws_get (out_path t o) ws <> PWrongKind).
+    label_in (td_label t) (c_taint c) = false /\ check_ext ext t = true.
 
 Definition hit_ready_b (b : bstate) (t : tdef) (key oh : str) : Prop :=
-  hit_ready (b_cache b) (w_ext (b_world b)) (w_ws (b_world b)) t key oh.
+  hit_ready (b_cache b) (w_ext (b_world b)) t key oh.
 
 Lemma execute_success cfg s i t key b b' :
   cfg_cache cfg = true -> td_nocache t = false -> i < rt_len b ->
@@ -608,7 +492,7 @@ Lemma execute_success cfg s i t key b b' :
              hit_ready_b b' t key oh.
 Proof.
   intros Hc Hn Hi E.
-  apply execute_cases in E as [(Hf & _)|(_ & w' & ds & Hwk & Hm & Hchk & Hpd & ->)]; [discriminate|].
+  apply execute_cases in E as [(Hf & _)|(_ & w' & ds & Hm & Hchk & Hpd & ->)]; [discriminate|].
   set (pr := oc_pair cfg t key (b_cache b) ds).
   destruct (present_digests_spec t (w_ws w') _ _ Hpd) as [Hmap Hfile].
   exists (r_outhash (fst pr)). split.
@@ -618,13 +502,11 @@ Proof.
   - unfold hit_ready_b. exists (fst pr).
     rewrite untaint_results, untaint_world, oc_state_results, oc_state_world, b_world_set_world.
     split; [apply rlookup_set_same|]. split; [reflexivity|].
-    split; [apply oc_pair_match; auto|]. split; [|split].
+    split; [apply oc_pair_match; auto|]. split.
     + unfold untaint. destruct (label_in (td_label t) (c_taint (b_cache b))) eqn:Et.
       * cbn. apply label_in_remove.
       * rewrite oc_state_taint, b_cache_set_world, exec_b0_cache. exact Et.
     + rewrite <- check_ok_ext. exact Hchk.
-    + intros def dg o _ Hf. apply find_out_in in Hf. destruct (Hfile o Hf) as [c Hcur].
-      rewrite Hcur. discriminate.
 Qed.
 
 (* ================================================================== Registry.LoadOutputs *)
@@ -655,39 +537,34 @@ Lemma load_outputs_frame i t r b ok b' :
 Proof.
   intros Hl E. apply load_outputs_cases in E as [(_ & _ & ->)|(_ & ws' & Ela & Hb)]; [|clear Hl|exact Hl].
   - split; [apply frame_refl|]. repeat split; reflexivity.
-  - pose proof (load_all_wk (b_cache b) t (r_outs r) (w_ws (b_world b))) as Hwk. rewrite Ela in Hwk.
-    cbn [snd] in Hwk. cbn zeta in Hb. destruct ok; subst b'.
+  - cbn zeta in Hb. destruct ok; subst b'.
     + split; [|split; [|split; [|split; [|split; [|split]]]]]; try reflexivity.
       * apply frame_trans with (set_world b (mkWorld ws' (w_ext (b_world b))));
-          [apply frame_set_world; exact Hwk | apply frame_set_rt].
+          [apply frame_set_world | apply frame_set_rt].
       * rewrite (get_rt_set_rt_field rt_key); reflexivity.
       * rewrite (get_rt_set_rt_field rt_status); reflexivity.
-    + split; [apply frame_set_world; exact Hwk|]. repeat split; reflexivity.
+    + split; [apply frame_set_world|]. repeat split; reflexivity.
 Qed.
 
 Lemma load_outputs_true i t r b b' :
   rt_loaded (get_rt b i) = false -> i < rt_len b ->
   load_outputs H i t r b = (true, b') ->
   outputs_match t r = true /\
-  get_rt b' i = mkRt (rt_key (get_rt b i)) (Some (r_outhash r)) true (rt_status (get_rt b i)) /\
-  (forall def dg o, In (def, dg) (r_outs r) -> find_out (td_outs t) def = Some o ->
-                    ws_get (out_path t o) (w_ws (b_world b')) <> PWrongKind).
+  get_rt b' i = mkRt (rt_key (get_rt b i)) (Some (r_outhash r)) true (rt_status (get_rt b i)).
 Proof.
   intros Hl Hi E. apply load_outputs_cases in E as [(Hf & _)|(Hm & ws' & Ela & Hb)];
     [discriminate | | exact Hl].
-  cbn zeta in Hb. subst b'. split; [exact Hm|]. split.
-  - rewrite get_rt_set_rt_same; [reflexivity | rewrite rt_len_set_world; exact Hi].
-  - intros def dg o Hin Hf. rewrite b_world_set_rt, b_world_set_world. cbn [w_ws].
-    eapply load_all_true_nwk; eauto.
+  cbn zeta in Hb. subst b'. split; [exact Hm|].
+  rewrite get_rt_set_rt_same; [reflexivity | rewrite rt_len_set_world; exact Hi].
 Qed.
 
 Lemma load_outputs_ok i t r b :
   rt_loaded (get_rt b i) = false -> outputs_match t r = true ->
-  restorable (b_cache b) t (w_ws (b_world b)) (r_outs r) ->
+  restorable (b_cache b) t (r_outs r) ->
   fst (load_outputs H i t r b) = true.
 Proof.
   intros Hl Hm Hr. unfold load_outputs. rewrite Hl, Hm. cbn [negb].
-  pose proof (load_all_ok (b_cache b) t (r_outs r) _ Hr) as Hok.
+  pose proof (load_all_ok (b_cache b) t (r_outs r) (w_ws (b_world b)) Hr) as Hok.
   destruct (load_all H (b_cache b) t (r_outs r) (w_ws (b_world b))) as [ok ws']. cbn [fst] in Hok.
   subst ok. reflexivity.
 Qed.
@@ -698,13 +575,11 @@ Lemma load_outputs_false i t r b :
   outputs_match t r = false \/
   exists def dg, In (def, dg) (r_outs r) /\
     (find_out (td_outs t) def = None \/
-     exists o, find_out (td_outs t) def = Some o /\
-       (alookup dg (c_cas (b_cache b)) = None \/
-        (o_kind o = OFile /\ ws_get (out_path t o) (w_ws (b_world b)) = PWrongKind))).
+     exists o, find_out (td_outs t) def = Some o /\ alookup dg (c_cas (b_cache b)) = None).
 Proof.
   intros Hl Hf. destruct (load_outputs H i t r b) as [ok b'] eqn:E. cbn [fst] in Hf. subst ok.
   apply load_outputs_cases in E as [(_ & Hm & _)|(_ & ws' & Ela & _)]; [left; exact Hm | | exact Hl].
-  right. apply load_all_fail. rewrite Ela. reflexivity.
+  right. apply load_all_fail with (ws := w_ws (b_world b)). rewrite Ela. reflexivity.
 Qed.
 
 (* ================================================================== the task of one target, LAll *)
@@ -961,7 +836,7 @@ Proof.
     pose proof El as Hfr. apply load_outputs_frame in Hfr; [|rewrite pt_b0_loaded; exact Hl].
     destruct Hfr as (Hf & Hcb & _ & _ & Hx & _).
     apply load_outputs_true in El; [|rewrite pt_b0_loaded; exact Hl | rewrite pt_b0_len; exact Hi].
-    destruct El as (Hom & Hrt & Hnwk).
+    destruct El as (Hom & Hrt).
     apply hit_cond_true in Eh as (Ht & _ & _ & Hchk).
     split; [|split; [left; reflexivity|]].
     + rewrite get_rt_mark_same; [|rewrite (frame_len _ _ _ Hf), pt_b0_len; exact Hi].
@@ -983,13 +858,13 @@ Proof.
     + rewrite (frame_len _ _ _ (execute_frame _ _ _ _ _ _ _ _ _ Ee)), Hlen. exact Hi.
 Qed.
 
-Lemma hit_ready_restorable c ext ws t key oh r :
-  hit_ready c ext ws t key oh -> rlookup key (c_results c) = Some r -> cache_complete c ->
-  restorable c t ws (r_outs r).
+Lemma hit_ready_restorable c ext t key oh r :
+  hit_ready c ext t key oh -> rlookup key (c_results c) = Some r -> cache_complete c ->
+  restorable c t (r_outs r).
 Proof.
-  intros (r' & Hr' & _ & Hom & _ & _ & Hnwk) Hr Hcc. rewrite Hr in Hr'. inversion Hr'; subst r'.
+  intros (r' & Hr' & _ & Hom & _ & _) Hr Hcc. rewrite Hr in Hr'. inversion Hr'; subst r'.
   intros def dg Hin. destruct (outputs_match_find t r def dg Hom Hin) as [o Ho].
-  exists o. split; [exact Ho|]. split; [eapply Hcc; eauto|]. intros _. eapply Hnwk; eauto.
+  exists o. split; [exact Ho | eapply Hcc; eauto].
 Qed.
 
 (* the cache serves the target: nothing runs, nothing is written to the cache *)
@@ -1004,21 +879,21 @@ Lemma pt_hit cfg s i t b dh oh :
   w_ext (b_world (process_target H cfg s i t b)) = w_ext (b_world b).
 Proof.
   intros Hm Hc Hn Hl Hi Hdh Hhr Hcc.
-  pose proof Hhr as (r & Hr & Hoh & Hom & Ht & Hchk & Hnwk).
+  pose proof Hhr as (r & Hr & Hoh & Hom & Ht & Hchk).
   rewrite (pt_LAll cfg s i t b Hm), Hdh. cbv zeta. rewrite Hr.
   assert (Eh : hit_cond cfg t b = true).
   { unfold hit_cond, pt_tainted. rewrite Ht, Hn, Hc, check_ok_ext, Hchk. reflexivity. }
   rewrite Eh.
   set (b0 := pt_b0 i (pt_key s t dh) b).
   assert (Hl0 : rt_loaded (get_rt b0 i) = false) by (unfold b0; rewrite pt_b0_loaded; exact Hl).
-  assert (Hres : restorable (b_cache b0) t (w_ws (b_world b0)) (r_outs r)).
-  { unfold b0. rewrite pt_b0_cache, pt_b0_world. eapply hit_ready_restorable; eauto. }
+  assert (Hres : restorable (b_cache b0) t (r_outs r)).
+  { unfold b0. rewrite pt_b0_cache. eapply hit_ready_restorable; eauto. }
   pose proof (load_outputs_ok i t r b0 Hl0 Hom Hres) as Hok.
   destruct (load_outputs H i t r b0) as [hit b1] eqn:El. cbn [fst] in Hok. subst hit.
   pose proof El as Hfr. apply load_outputs_frame in Hfr; [|exact Hl0].
   destruct Hfr as (Hf & Hcb & He & _ & Hx & _).
   apply load_outputs_true in El; [|exact Hl0 | unfold b0; rewrite pt_b0_len; exact Hi].
-  destruct El as (_ & Hrt & _).
+  destruct El as (_ & Hrt).
   split; [|split; [|split]].
   - rewrite get_rt_mark_same; [|rewrite (frame_len _ _ _ Hf); unfold b0; rewrite pt_b0_len; exact Hi].
     rewrite Hrt. unfold b0. rewrite pt_b0_same; [|exact Hi]. cbn [rt_key rt_ohash rt_loaded]. rewrite Hoh. reflexivity.
@@ -1031,7 +906,7 @@ Qed.
 Lemma execute_cc cfg s i t key tn b ok b' :
   execute H cfg s i t key tn b = (ok, b') -> cache_complete (b_cache b) -> cache_complete (b_cache b').
 Proof.
-  intros E Hcc. apply execute_cases in E as [(_ & w' & -> & _)|(_ & w' & ds & _ & _ & _ & _ & ->)].
+  intros E Hcc. apply execute_cases in E as [(_ & w' & -> & _)|(_ & w' & ds & _ & _ & _ & ->)].
   - rewrite b_cache_set_world, exec_b0_cache. exact Hcc.
   - intros k r Hr def dg Hin. rewrite untaint_results, oc_state_results, b_cache_set_world, exec_b0_cache in Hr.
     rewrite untaint_cas, oc_state_cas.
@@ -1161,7 +1036,7 @@ Proof. intro Hg. unfold run_history. apply fold_step_op_cc; [exact Hg | apply em
 Definition set_stop (b : bstate) : bstate := mkB (b_world b) (b_cache b) (b_rt b) (b_exec b) true.
 
 Lemma frame_set_stop i b : frame i b (set_stop b).
-Proof. repeat split; auto. apply wk_le_refl. Qed.
+Proof. repeat split; auto. Qed.
 
 Section Walk.
 Variable cfg : config.
@@ -1385,16 +1260,15 @@ Lemma pn_hit_ready b j t key oh :
   rt_key (get_rt (pn b j) j) <> Some key ->
   hit_ready_b (pn b j) t key oh.
 Proof.
-  intros Hf Hj (r & Hr & Hoh & Hom & Ht & Hchk & Hnwk) Hnf Hk.
-  destruct (pn_frame b j Hf) as (_ & _ & Hwk & Htn & _).
+  intros Hf Hj (r & Hr & Hoh & Hom & Ht & Hchk) Hnf Hk.
+  destruct (pn_frame b j Hf) as (_ & _ & Htn & _).
   exists r. split; [rewrite pn_results_other; auto|]. split; [exact Hoh|]. split; [exact Hom|].
-  split; [|split].
+  split.
   - destruct (label_in (td_label t) (c_taint (b_cache (pn b j)))) eqn:E; [|reflexivity].
     apply Htn in E. congruence.
   - unfold check_ext in *. destruct (td_check t); [|reflexivity]. cbn [negb orb] in *.
     destruct (pn_ext b j (td_label t) Hf Hj Hchk) as [E|(E & tj & Hnj & Hlj)]; [exact E|].
     exfalso. exact (Hnf E tj Hnj Hlj).
-  - intros def dg o Hin Hfo Hp. apply (Hnwk def dg o Hin Hfo). apply Hwk, Hp.
 Qed.
 
 Lemma pn_target_status b i t :
@@ -1569,12 +1443,10 @@ Qed.
 
 Lemma hit_ready_mono b b' t key oh :
   b_cache b' = b_cache b -> w_ext (b_world b') = w_ext (b_world b) ->
-  wk_le (w_ws (b_world b')) (w_ws (b_world b)) ->
   hit_ready_b b t key oh -> hit_ready_b b' t key oh.
 Proof.
-  intros Hc Hx Hw (r & Hr & Hoh & Hom & Ht & Hchk & Hnwk). unfold hit_ready_b, hit_ready.
+  intros Hc Hx (r & Hr & Hoh & Hom & Ht & Hchk). unfold hit_ready_b, hit_ready.
   rewrite Hc, Hx. exists r. repeat split; auto.
-  intros def dg o Hin Hf Hp. apply (Hnwk def dg o Hin Hf). apply Hw, Hp.
 Qed.
 
 (* ================================================================== whole builds *)
@@ -1776,8 +1648,7 @@ Proof.
     + apply (fresh_tail cfg s2 sel2 Hmode i l b2 Hnd); [|exact Hj]. intros j' Hj'. apply R2, Hj'.
   - intros j t' key oh' Hj HEj Hn Hnc' Hok Hk Ho.
     apply hit_ready_mono with b2; auto.
-    + destruct Hfr2 as (_ & _ & Hw & _). exact Hw.
-    + exact (R3 j t' key oh' (or_intror Hj) HEj Hn Hnc' Hok Hk Ho).
+    exact (R3 j t' key oh' (or_intror Hj) HEj Hn Hnc' Hok Hk Ho).
   - destruct (b_stop (pn1 b1 i)) eqn:Es1; [|reflexivity].
     destruct (pn_stop cfg s1 sel1 Hmode b1 i Hf1 Es1) as [Hs|Hs]; [congruence | contradiction].
   - rewrite Hs2. exact R5.
@@ -1894,10 +1765,10 @@ Lemma rel_init n w c w' :
   cache_complete c ->
   (forall i, rt_status (get_rt F1 i) <> TFailed) ->
   (forall i j k, i <> j -> rt_key (get_rt F1 i) = Some k -> rt_key (get_rt F1 j) <> Some k) ->
-  w_ext w' = w_ext (b_world F1) -> wk_le (w_ws w') (w_ws (b_world F1)) ->
+  w_ext w' = w_ext (b_world F1) ->
   Rel F1 (seq 0 n) b1 b2.
 Proof.
-  intros b1 F1 b2 Hcc Hnf Hdk Hext Hwk.
+  intros b1 F1 b2 Hcc Hnf Hdk Hext.
   assert (Hfr : forall b0 w0 c0, b0 = init_b w0 c0 n -> forall i, In i (seq 0 n) -> fresh b0 i /\ i < rt_len b0).
   { intros b0 w0 c0 -> i Hi. split; [apply init_b_fresh|]. rewrite init_b_len. apply in_seq in Hi. lia. }
   split; [|split; [|split; [|split; [|split; [|split]]]]].
@@ -1911,9 +1782,8 @@ Proof.
     + change (rt_key (get_rt F1 j) = Some key') in Hk'. change (rt_ohash (get_rt F1 j) = Some oh') in Ho'.
       change (hit_ready_b F1 t key' oh') in Hhr.
       assert (key' = key) by congruence. assert (oh' = oh) by congruence. subst key' oh'.
-      destruct Hhr as (r & Hr & Hoh & Hom & Ht & Hchk & Hnwk). exists r.
+      destruct Hhr as (r & Hr & Hoh & Hom & Ht & Hchk). exists r.
       unfold b2, init_b. cbn [b_cache b_world]. rewrite Hext. repeat split; auto.
-      intros def dg o Hin Hf Hp. apply (Hnwk def dg o Hin Hf). apply Hwk, Hp.
   - reflexivity.
   - reflexivity.
   - unfold b2, init_b. cbn [b_cache]. unfold F1, run. apply fold_process_node_cc. exact Hcc.
@@ -1929,11 +1799,11 @@ Lemma replay_init n w c w' :
   (forall i, rt_status (get_rt F1 i) <> TFailed) ->
   (forall i j k, i <> j -> rt_key (get_rt F1 i) = Some k -> rt_key (get_rt F1 j) <> Some k) ->
   (forall i j k, K i = true -> i <> j -> rt_key (get_rt F2 i) = Some k -> rt_key (get_rt F1 j) <> Some k) ->
-  w_ext w' = w_ext (b_world F1) -> wk_le (w_ws w') (w_ws (b_world F1)) ->
+  w_ext w' = w_ext (b_world F1) ->
   Stopped F2 \/ Rel F1 [] F1 F2.
 Proof.
-  intros b1 F1 b2 F2 Hcc Hnf Hdk Hcross Hext Hwk.
-  pose proof (rel_init n w c w' Hcc Hnf Hdk Hext Hwk) as HR. fold b1 F1 b2 in HR.
+  intros b1 F1 b2 F2 Hcc Hnf Hdk Hcross Hext.
+  pose proof (rel_init n w c w' Hcc Hnf Hdk Hext) as HR. fold b1 F1 b2 in HR.
   pose proof (replay_gen (seq 0 n) [] b1 b2) as Hrep. rewrite app_nil_r in Hrep.
   apply Hrep.
   - apply seq_NoDup.
@@ -2132,19 +2002,10 @@ Proof.
   exact (key_label H H_inj H_hex _ _ _ _ Ekj).
 Qed.
 
-(* perturbations of output paths between the two builds *)
-Definition not_wk (st : pstate) : bool := match st with PWrongKind => false | _ => true end.
-
+(* perturbations of output paths between the two builds: ANY state may be put at any path (also a
+   directory at a file output's path: a restore replaces it since the repair of C06-F3) *)
 Definition apply_perturbs (ps : list (str * pstate)) (ws : list (str * pstate)) : list (str * pstate) :=
   fold_left (fun ws p => ws_set (fst p) (snd p) ws) ps ws.
-
-Lemma apply_perturbs_wk ps : forall ws,
-  forallb (fun p => not_wk (snd p)) ps = true -> wk_le (apply_perturbs ps ws) ws.
-Proof.
-  unfold apply_perturbs. induction ps as [|[p st] ps IH]; intros ws Hg; [apply wk_le_refl|].
-  cbn [forallb snd] in Hg. apply andb_true_iff in Hg as [Hst Hg]. cbn [fold_left fst snd].
-  eapply wk_le_trans; [apply IH, Hg|]. apply wk_le_set. intro; subst. discriminate.
-Qed.
 
 Definition no_nocache_sel (s : sources) (sel : list nat) : bool :=
   forallb (fun i => match node_at s i with Some (NTarget t) => negb (td_nocache t) | _ => true end) sel.
@@ -2162,20 +2023,18 @@ Theorem noop_rebuild cfg s roots w c ps :
   br_ok (build H cfg s roots w c) = true ->
   distinct_keys (build_state cfg s roots w c) = true ->
   no_nocache_sel s (selection s roots) = true ->
-  forallb (fun p => not_wk (snd p)) ps = true ->
   let r1 := build H cfg s roots w c in
   let w' := mkWorld (apply_perturbs ps (w_ws (br_world r1))) (w_ext (br_world r1)) in
   let r2 := build H cfg s roots w' (br_cache r1) in
   br_exec r2 = [] /\ br_ok r2 = true.
 Proof.
-  intros Hm Hc Hcc Hok Hdk Hnn Hps r1 w' r2.
+  intros Hm Hc Hcc Hok Hdk Hnn r1 w' r2.
   set (n := length (s_nodes s)). set (sel := selection s roots).
   pose proof (proj1 (br_ok_iff cfg s roots w c) Hok) as Hnf.
   pose proof (distinct_keys_spec _ Hdk) as Hdk'.
   destruct (replay_init cfg s s sel sel (fun _ => false) (fun _ => false) Hm Hc eq_refl) with (n := n) (w := w) (c := c) (w' := w')
     as [(_ & (j & Hj) & _)|(R1 & _ & _ & _ & _ & _ & R7)]; auto; try discriminate.
   - intros i t _ Hin Hn. apply (no_nocache_sel_spec s sel i t Hnn Hin Hn).
-  - unfold w'. cbn [w_ws]. apply apply_perturbs_wk. exact Hps.
   - split.
     + change (br_exec r2) with (b_exec (build_state cfg s roots w' (br_cache r1))).
       destruct (b_exec (build_state cfg s roots w' (br_cache r1))) as [|lb ex] eqn:Eex; [reflexivity|].
@@ -2198,36 +2057,33 @@ Corollary noop_rebuild_labels cfg s roots w c ps :
   br_ok (build H cfg s roots w c) = true ->
   distinct_labels s = true ->
   no_nocache_sel s (selection s roots) = true ->
-  forallb (fun p => not_wk (snd p)) ps = true ->
   let r1 := build H cfg s roots w c in
   let w' := mkWorld (apply_perturbs ps (w_ws (br_world r1))) (w_ext (br_world r1)) in
   let r2 := build H cfg s roots w' (br_cache r1) in
   br_exec r2 = [] /\ br_ok r2 = true.
 Proof.
-  intros H_inj H_hex Hm Hc Hcc Hok Hdl Hnn Hps.
+  intros H_inj H_hex Hm Hc Hcc Hok Hdl Hnn.
   apply noop_rebuild; auto. apply distinct_labels_distinct_keys; assumption.
 Qed.
 
 (* ================================================================== C02_exec_only_if / C02_hit_if (single task) *)
-(* the restore of a cached result fails only for reasons visible in the cache contents or in the
-   KIND of what sits at a file output's path *)
-Definition restore_failed (c : cache) (ws : list (str * pstate)) (t : tdef) (r : result) : Prop :=
+(* the restore of a cached result fails only for reasons visible in the cache contents: the recorded
+   output definitions are not the declared ones, or a recorded blob is not in the CAS (nothing that sits
+   in the workspace can make it fail) *)
+Definition restore_failed (c : cache) (t : tdef) (r : result) : Prop :=
   outputs_match t r = false \/
-  (exists def dg, In (def, dg) (r_outs r) /\ alookup dg (c_cas c) = None) \/
-  (exists def dg o, In (def, dg) (r_outs r) /\ find_out (td_outs t) def = Some o /\
-                    o_kind o = OFile /\ ws_get (out_path t o) ws = PWrongKind).
+  (exists def dg, In (def, dg) (r_outs r) /\ alookup dg (c_cas c) = None).
 
 Lemma load_outputs_fail_reason i t r b :
-  fst (load_outputs H i t r b) = false -> restore_failed (b_cache b) (w_ws (b_world b)) t r.
+  fst (load_outputs H i t r b) = false -> restore_failed (b_cache b) t r.
 Proof.
   intro Hf. destruct (rt_loaded (get_rt b i)) eqn:Hl.
   { unfold load_outputs in Hf. rewrite Hl in Hf. discriminate. }
   destruct (outputs_match t r) eqn:Hom; [|left; exact Hom].
-  destruct (load_outputs_false i t r b Hl Hf) as [Hm|(def & dg & Hin & [Hn|(o & Ho & [Hb|[Hk Hp]])])].
+  destruct (load_outputs_false i t r b Hl Hf) as [Hm|(def & dg & Hin & [Hn|(o & Ho & Hb)])].
   - congruence.
   - destruct (outputs_match_find t r def dg Hom Hin) as [o Ho]. congruence.
-  - right; left. exists def, dg. auto.
-  - right; right. exists def, dg, o. auto.
+  - right. exists def, dg. auto.
 Qed.
 
 (* the general (any load_outputs mode) hit path of the task *)
@@ -2273,7 +2129,7 @@ Theorem exec_only_if cfg s i t b :
      cfg_cache cfg = false \/ pt_tainted t b = true \/ td_nocache t = true \/
      check_ok (b_world b) t = false \/
      (cfg_mode cfg = LAll /\ exists r, rlookup (pt_key s t dh) (c_results (b_cache b)) = Some r /\
-        restore_failed (b_cache b) (w_ws (b_world b)) t r)).
+        restore_failed (b_cache b) t r)).
 Proof.
   intros Hi Hst.
   destruct (dep_hashes s b (td_deps t)) as [dh|] eqn:Hdh.
@@ -2289,7 +2145,7 @@ Proof.
   destruct (fst (load_outputs H i t r (pt_b0 i (pt_key s t dh) b))) eqn:El;
     [exfalso; apply Hcontra; right; reflexivity|].
   right; right; right; right. split; [reflexivity|]. exists r. split; [reflexivity|].
-  apply load_outputs_fail_reason in El. rewrite pt_b0_cache, pt_b0_world in El. exact El.
+  apply load_outputs_fail_reason in El. rewrite pt_b0_cache in El. exact El.
 Qed.
 
 (* LAll: a command start on behalf of the target itself has the same reasons *)
@@ -2301,7 +2157,7 @@ Theorem exec_label_only_if cfg s i t b :
      cfg_cache cfg = false \/ pt_tainted t b = true \/ td_nocache t = true \/
      check_ok (b_world b) t = false \/
      (exists r, rlookup (pt_key s t dh) (c_results (b_cache b)) = Some r /\
-        restore_failed (b_cache b) (w_ws (b_world b)) t r)).
+        restore_failed (b_cache b) t r)).
 Proof.
   intros Hm Hi Hex.
   destruct (dep_hashes s b (td_deps t)) as [dh|] eqn:Hdh.
@@ -2318,7 +2174,7 @@ Proof.
     + unfold load_outputs in El2. rewrite Eld in El2. inversion El2; subst. reflexivity.
     + apply load_outputs_frame in El2; [|exact Eld]. destruct El2 as (_ & _ & He & _). rewrite He. reflexivity.
   - right; right; right; right. exists r. split; [reflexivity|].
-    apply load_outputs_fail_reason in El. rewrite pt_b0_cache, pt_b0_world in El. exact El.
+    apply load_outputs_fail_reason in El. rewrite pt_b0_cache in El. exact El.
 Qed.
 
 Theorem hit_if cfg s i t b dh r :
@@ -2328,28 +2184,27 @@ Theorem hit_if cfg s i t b dh r :
   pt_tainted t b = false -> td_nocache t = false -> cfg_cache cfg = true ->
   check_ok (b_world b) t = true -> outputs_match t r = true ->
   (forall def dg, In (def, dg) (r_outs r) -> alookup dg (c_cas (b_cache b)) <> None) ->
-  (forall o, In o (td_outs t) -> o_kind o = OFile -> ws_get (out_path t o) (w_ws (b_world b)) <> PWrongKind) ->
   rt_status (get_rt (process_target H cfg s i t b) i) = THit /\
   rt_ohash (get_rt (process_target H cfg s i t b) i) = Some (r_outhash r) /\
   b_exec (process_target H cfg s i t b) = b_exec b /\
   b_cache (process_target H cfg s i t b) = b_cache b.
 Proof.
-  intros Hm Hi Hl Hdh Hr Ht Hn Hc Hchk Hom Hblobs Hwk.
+  intros Hm Hi Hl Hdh Hr Ht Hn Hc Hchk Hom Hblobs.
   assert (Hcond : hit_cond cfg t b = true).
   { unfold hit_cond. rewrite Ht, Hn, Hc, Hchk. reflexivity. }
   set (b0 := pt_b0 i (pt_key s t dh) b).
   assert (Hl0 : rt_loaded (get_rt b0 i) = false) by (unfold b0; rewrite pt_b0_loaded; exact Hl).
-  assert (Hres : restorable (b_cache b0) t (w_ws (b_world b0)) (r_outs r)).
-  { unfold b0. rewrite pt_b0_cache, pt_b0_world. intros def dg Hin.
+  assert (Hres : restorable (b_cache b0) t (r_outs r)).
+  { unfold b0. rewrite pt_b0_cache. intros def dg Hin.
     destruct (outputs_match_find t r def dg Hom Hin) as [o Ho]. exists o. split; [exact Ho|].
-    split; [apply (Hblobs def dg Hin)|]. apply Hwk. apply find_out_in with def. exact Ho. }
+    apply (Hblobs def dg Hin). }
   pose proof (load_outputs_ok i t r b0 Hl0 Hom Hres) as Hok.
   rewrite (pt_LAll cfg s i t b Hm), Hdh. cbv zeta. rewrite Hr, Hcond. fold b0.
   destruct (load_outputs H i t r b0) as [hit b1] eqn:El. cbn [fst] in Hok. subst hit.
   pose proof El as Hfr. apply load_outputs_frame in Hfr; [|exact Hl0].
   destruct Hfr as (Hf & Hcb & He & _).
   apply load_outputs_true in El; [|exact Hl0 | unfold b0; rewrite pt_b0_len; exact Hi].
-  destruct El as (_ & Hrt & _).
+  destruct El as (_ & Hrt).
   assert (Hlen : i < rt_len b1) by (rewrite (frame_len _ _ _ Hf); unfold b0; rewrite pt_b0_len; exact Hi).
   rewrite get_rt_mark_same; [|exact Hlen]. cbn [rt_status rt_ohash]. rewrite Hrt. cbn [rt_ohash].
   rewrite b_exec_mark, b_cache_mark, He, Hcb. auto.
@@ -2407,7 +2262,6 @@ Hypothesis Hok1 : br_ok (build H cfg s1 roots w c) = true.
 Hypothesis Hdk : distinct_keys F1 = true.
 Hypothesis Hcross : cross_distinct K F1 F2.
 Hypothesis Hext : w_ext w' = w_ext (b_world F1).
-Hypothesis Hwk : wk_le (w_ws w') (w_ws (b_world F1)).
 
 Let sel1 := selection s1 roots.
 Let sel2 := selection s2 roots.
@@ -2437,7 +2291,6 @@ Proof.
   - apply distinct_keys_spec. exact Hdk.
   - pose proof Hcross as Hc. unfold cross_distinct in Hc. rewrite edit_F2_eq in Hc. exact Hc.
   - exact Hext.
-  - exact Hwk.
 Qed.
 
 Theorem edit_cone :
@@ -2654,7 +2507,6 @@ Proof.
   - intros i t HK Hi Hn. apply (no_nocache_outside_spec K s1 _ i t Hnn HK Hi Hn).
   - apply distinct_labels_fromb_spec. exact Hlab.
   - apply cross_distinctb_spec. exact Hcross.
-  - apply wk_le_refl.
 Qed.
 
 Theorem early_cutoff_build (H : str -> str) cfg s1 s2 roots w c (E K : nat -> bool) d td :
@@ -2695,7 +2547,6 @@ Proof.
   - intros i t HK Hi Hn. apply (no_nocache_outside_spec K s1 _ i t Hnn HK Hi Hn).
   - apply distinct_labels_fromb_spec. exact Hlab.
   - apply cross_distinctb_spec. exact Hcross.
-  - apply wk_le_refl.
   - intros x Hx. destruct (Hdeps x Hx) as [HK|(t1 & t2 & H1 & H2 & HL & H3 & H4)]; [left; exact HK|].
     right. exists t1, t2. repeat split; auto. unfold dep_ok.
     change (build_state H cfg s2 roots (br_world r1) (b_cache (build_state H cfg s1 roots w c))) with F2.
@@ -2865,19 +2716,20 @@ Definition sx := mkSrc [NTarget ta; NTarget tb; NAlias (Lb ["x"]) 1; NTarget tc]
 
 Definition r1 := build hex_enc cfgA sx [3] w0 empty_cache.
 Definition ps : list (str * pstate) :=
-  [(["p";"/";"a";".";"o"], PAbsent); (["p";"/";"s";"/";"b";".";"o"], PNoParent);
-   (["p";"/";"c";"d"], PFile ["j";"u";"n";"k"])].
+  [(["p";"/";"a";".";"o"], PWrongKind); (["p";"/";"s";"/";"b";".";"o"], PNoParent);
+   (["p";"/";"c";"d"], PFile ["j";"u";"n";"k"]); (["p";"/";"o";"t";"h";"e";"r"], PAbsent)].
+Definition is_wk (st : pstate) : bool := match st with PWrongKind => true | _ => false end.
 Definition w1 := mkWorld (apply_perturbs ps (w_ws (br_world r1))) (w_ext (br_world r1)).
 Definition r2 := build hex_enc cfgA sx [3] w1 (br_cache r1).
 
 (* every guard of the no-op theorem holds on this instance, the first build really executes,
-   and after deleting one output, removing the parent of another and corrupting the third the
-   rebuild runs nothing *)
+   and after putting a directory where one (file) output belongs, removing the parent of another and
+   corrupting the third the rebuild runs nothing *)
 Example noop_rebuild_nonvacuous :
   br_ok r1 = true /\ List.length (br_exec r1) = 3 /\
   distinct_keys (build_state hex_enc cfgA sx [3] w0 empty_cache) = true /\
   no_nocache_sel sx (selection sx [3]) = true /\
-  forallb (fun p => not_wk (snd p)) ps = true /\
+  existsb (fun p => is_wk (snd p)) ps = true /\
   br_exec r2 = [] /\ br_ok r2 = true /\ br_status r2 = [THit; THit; THit; THit].
 Proof. vm_compute. repeat split; reflexivity. Qed.
 
@@ -3054,18 +2906,17 @@ Example exec_only_if_nonvacuous :
   rlookup (pt_key hex_enc sx ta []) (c_results (b_cache b_first)) = None.
 Proof. vm_compute. repeat split; try reflexivity. discriminate. Qed.
 
-(* second build, after a's output was deleted: every hypothesis of hit_if holds *)
+(* second build, after a directory was put where a's (file) output belongs: every hypothesis of hit_if holds *)
 Example hit_if_nonvacuous :
-  ws_get ["p";"/";"a";".";"o"] (w_ws (b_world b_second)) = PAbsent /\
+  ws_get ["p";"/";"a";".";"o"] (w_ws (b_world b_second)) = PWrongKind /\
   rt_status (get_rt (process_target hex_enc cfgA sx 0 ta b_second) 0) = THit /\
   b_exec (process_target hex_enc cfgA sx 0 ta b_second) = b_exec b_second.
 Proof.
   split; [vm_compute; reflexivity|].
   destruct (hit_if hex_enc cfgA sx 0 ta b_second [] r_a) as (A & _ & B & _);
-    try (vm_compute; reflexivity); [| | | auto].
+    try (vm_compute; reflexivity); [| | auto].
   - vm_compute. lia.
   - intros def dg Hin. vm_compute in Hin. destruct Hin as [E0|[]]. inversion E0; subst. vm_compute. discriminate.
-  - intros o [<-|[]] _. vm_compute. discriminate.
 Qed.
 
 Example run_history_cache_complete_nonvacuous :
